@@ -122,8 +122,8 @@ OPS = {
             "lists x style maps over ids {a,b} with arbitrary overlap x receiver with/without maps for Merge; random "
             "driver beyond. Non-trivial = equal starts present, or an identifier clash, or a nil-map receiver."),
     "C13": ("MC_C13.cfg",
-            [("optimize", dict(GEN_G=1, GEN_N=1, GEN_NT=1), dict(GEN_G=1, GEN_N=2, GEN_NT=1)),
-             ("removestyling", dict(GEN_G=1, GEN_N=1, GEN_NT=1, GEN_PARTS=4), dict(GEN_G=1, GEN_N=1, GEN_NT=1))],
+            [("optimize", dict(GEN_G=1, GEN_N=1, GEN_NT=1, GEN_PARTS=8), dict(GEN_G=1, GEN_N=1, GEN_NT=1, GEN_PARTS=14)),
+             ("removestyling", dict(GEN_G=1, GEN_N=1, GEN_NT=1, GEN_PARTS=4), dict(GEN_G=1, GEN_N=1, GEN_NT=1, GEN_PARTS=6))],
             [("optimize", 400, 20000, 6), ("removestyling", 200, 5000, 6)],
             "TLC enumerates every reference graph over <=3 styles (arbitrary parent links incl. chains and cycles), <=2 "
             "regions with optional style, N cues each with optional style / region / run style; random driver: 6 styles, "
@@ -188,7 +188,7 @@ def check_ops(pid, tier, seed, scratch, replay):
         out = scratch.path("cases.%s.%d.ndjson" % (op, p))
         e = dict(env)
         e.update(GEN_OP=op, GEN_OUT=out, GEN_PART=p, GEN_PARTS=parts)
-        r = tlc(scratch, "GenOps", "Gen.cfg", env=e, workers=1, timeout=1700, heap="2g")
+        r = tlc(scratch, "GenOps", "Gen_T.cfg" if thorough else "Gen.cfg", env=e, workers=1, timeout=1700, heap="2g")
         require_ok(r, "case generation %s part %d" % (op, p))
         tr = scratch.path("trace.%s.%d.ndjson" % (op, p))
         vlib.run_drive(drive, ["ops", "-cases", out, "-out", tr, "-n0", str(p * 10000000)])
